@@ -50,11 +50,17 @@ type c02wfModelRun struct {
 }
 
 type c02wfModel struct {
-	Runs []c02wfModelRun `json:"runs"`
-	Alts []gcase.ResultJ `json:"alts"`
+	Runs         []c02wfModelRun `json:"runs"`
+	Alts         []gcase.ResultJ `json:"alts"`         // results under every completion schedule (if complete)
+	AltsComplete bool            `json:"altsComplete"` // the exploration of all schedules finished within its budget
+	Possible     []gcase.TaskJ   `json:"possible"`     // failing cases: every (node, input) submitted under some schedule
 }
 
-var c02wfScheds = []string{"first", "last", "kmax", "kmin", "rot1", "rot2", "h1", "h2"}
+// set once a scripted completion order could not be followed (each such run costs a 15 s
+// classification timeout): the remaining cases of this process run without scripts
+var c02wfScriptBroken bool
+
+var c02wfScheds = []string{"first", "last", "kmax", "kmin", "rot1", "rot2", "h1", "h2", "okfirst"}
 
 func c02wfNormRes(r gcase.ResultJ) gcase.ResultJ {
 	if r.Path == nil {
@@ -132,6 +138,10 @@ func c02wfCompare(ctx *vh.Ctx, c *c02wfCase, model *c02wfModel, spec c02wfRunSpe
 	var mrun *c02wfModelRun
 	opts := &gcase.WRunOpts{Yields: spec.Yields, Stream: spec.Mode == "stream"}
 	if spec.Mode == "script" {
+		if c02wfScriptBroken && ctx.Replay == nil {
+			ctx.Res.Dist("wf-script-skipped-after-stuck")
+			return nil
+		}
 		for i := range model.Runs {
 			if model.Runs[i].Sched == spec.Sched {
 				mrun = &model.Runs[i]
@@ -167,6 +177,7 @@ func c02wfCompare(ctx *vh.Ctx, c *c02wfCase, model *c02wfModel, spec c02wfRunSpe
 		}
 	}
 	if len(impl.Stuck) > 0 {
+		c02wfScriptBroken = true
 		rp.disagree("script-stuck", "the completion order of the model's run could not be followed by the implementation: body of "+strings.Join(impl.Stuck, ",")+" never released", mrun, impl)
 		return impl
 	}
@@ -210,7 +221,11 @@ func c02wfCompare(ctx *vh.Ctx, c *c02wfCase, model *c02wfModel, spec c02wfRunSpe
 		}
 	}
 	if !okRes {
-		rp.disagree("result", "result of the workflow run is none of the model's results under the probed completion schedules", model.Alts, impl)
+		if impl.Result.Err != nil && !model.AltsComplete {
+			ctx.Res.Dist("wf-failing-free-run-unverified") // too many schedules to enumerate
+			return impl
+		}
+		rp.disagree("result", "result of the workflow run is none of the model's results under any completion schedule", model.Alts, impl)
 		return impl
 	}
 	if impl.Result.Err == nil {
@@ -222,19 +237,10 @@ func c02wfCompare(ctx *vh.Ctx, c *c02wfCase, model *c02wfModel, spec c02wfRunSpe
 				break
 			}
 		}
-	} else {
-		var union []gcase.TaskJ
-		have := map[string]bool{}
-		for i := range model.Runs {
-			for _, t := range c02wfSubmitted(&model.Runs[i]) {
-				if !have[t.K+"\x00"+t.In] {
-					have[t.K+"\x00"+t.In] = true
-					union = append(union, t)
-				}
-			}
-		}
-		if !c02wfSubset(impl.Execs, union) {
-			rp.disagree("execs", "a node executed (or its input) that no probed schedule of the model executes (failing run)", model.Runs[0], impl)
+	} else if model.AltsComplete {
+		// which nodes have started when the failure is collected depends on the completion order
+		if !c02wfSubset(impl.Execs, model.Possible) {
+			rp.disagree("execs", "a node executed (or its input) that no completion schedule of the model executes (failing run)", model.Possible, impl)
 		}
 	}
 	return impl
@@ -381,8 +387,8 @@ func c02wfReplay(ctx *vh.Ctx, raw json.RawMessage) error {
 
 func runC02Workflow(ctx *vh.Ctx) error {
 	ctx.Res.Rule += " | workflows (kind=workflow): random acyclic compose.Workflow, 1-7 nodes (thorough 1-11), AddInput / AddDependency / WithNoDirectDependency, branches without data flow (single/multi, converging, nested skips), static values, END fed by several nodes; each under scripted completion orders, a free run with seeded yields and (thorough) Stream mode; non-trivial = >=2 nodes, >=2 completions and (control-only | data-only dependency | branch | zero-input node)"
-	n := ctx.N(1200, 20000)
-	limit := time.Duration(ctx.N(10, 60)) * time.Second
+	n := ctx.N(3000, 30000)
+	limit := time.Duration(ctx.N(11, 70)) * time.Second
 	start := time.Now()
 	for i := 0; i < n && time.Since(start) < limit; i++ {
 		o := gcase.WGenOpts{MaxNodes: 7, FailPct: 4, BranchPct: 30, Natives: false}
@@ -409,5 +415,6 @@ func runC02Workflow(ctx *vh.Ctx) error {
 			return err
 		}
 	}
+	ctx.Res.Extra["workflow_family_seconds"] = time.Since(start).Seconds()
 	return nil
 }
